@@ -251,7 +251,7 @@ func c14RunFramesInner(e *vsched.Exec, c *c14FrameCase, st *c14FrameStats) strin
 		ids[m] = -1
 		var cat []byte
 		for _, w := range sent {
-			if w.Addr == nil || w.Addr.String() != "peer" {
+			if w.Addr == nil || w.Addr.String() != dst.String() {
 				return "datagram sent to a different destination"
 			}
 			f, cl := deob(w.Data)
@@ -387,7 +387,7 @@ func c14RunFramesInner(e *vsched.Exec, c *c14FrameCase, st *c14FrameStats) strin
 		if cl != "" {
 			return cl
 		}
-		return check1(got, string(src), pkts[0], fmt.Sprint("chunk order ", order))
+		return check1(got, src.String(), pkts[0], fmt.Sprint("chunk order ", order))
 	}
 	fail := ""
 	seq := make([]int, 0, 10)
@@ -471,7 +471,7 @@ func c14RunFramesInner(e *vsched.Exec, c *c14FrameCase, st *c14FrameStats) strin
 		for _, x := range got {
 			hit := false
 			for m := 0; m < 3; m++ {
-				if !seen[m] && x.src == "mix" && bytes.Equal(x.data, pkts[m]) {
+				if !seen[m] && x.src == c14Addr("mix").String() && bytes.Equal(x.data, pkts[m]) {
 					seen[m], hit = true, true
 					break
 				}
@@ -503,7 +503,7 @@ func c14RunFramesInner(e *vsched.Exec, c *c14FrameCase, st *c14FrameStats) strin
 		if cl != "" {
 			return cl
 		}
-		if cl := check1(got, "S", short, "a short-header packet"); cl != "" {
+		if cl := check1(got, c14Addr("S").String(), short, "a short-header packet"); cl != "" {
 			return cl
 		}
 	}
@@ -530,7 +530,7 @@ func c14RunFramesInner(e *vsched.Exec, c *c14FrameCase, st *c14FrameStats) strin
 	if cl != "" {
 		return cl
 	}
-	if cl := check1(got, "E", pkts[0], "the end-to-end delivery in reverse order with a duplicate"); cl != "" {
+	if cl := check1(got, c14Addr("E").String(), pkts[0], "the end-to-end delivery in reverse order with a duplicate"); cl != "" {
 		return cl
 	}
 	rw.Inject(shortWire, c14Addr("E"))
@@ -538,7 +538,7 @@ func c14RunFramesInner(e *vsched.Exec, c *c14FrameCase, st *c14FrameStats) strin
 	if cl != "" {
 		return cl
 	}
-	return check1(got, "E", short, "the end-to-end short-header packet")
+	return check1(got, c14Addr("E").String(), short, "the end-to-end short-header packet")
 }
 
 var c14BoundaryLens = []int{1, 2, 3, 7, 8, 9, 16, 63, 64, 65, 87, 88, 173, 174, 175, 176, 260, 261, 262, 347, 348, 349, 435, 436, 522, 609, 696, 697, 997, 998, 999, 1000, 1199, 1200, 1201, 1496, 1497, 1498, 1499, 1500}
